@@ -547,12 +547,16 @@ theorem refersTo_nil (rp : Repo) (target : Bytes) (fuel : Nat) :
     refersTo rp target fuel [] = false := by
   cases fuel <;> simp [refersTo]
 
-/-- One unfolding of `refersTo` as a statement about list membership. -/
+/-- One unfolding of `refersTo` as a statement about list membership.
+F42: the stored manifest is followed under its stored media type (`b.refs`) or under
+the one the reference declares for it (`refsAs b ref.desc.mediaType`). -/
 theorem refersTo_succ (rp : Repo) (target : Bytes) (n : Nat) (refs : List RefInfo) :
     refersTo rp target (n + 1) refs = true ↔
       ∃ ref, ref ∈ refs ∧ (ref.desc.digest = target ∨
         ((ref.kind = 1 ∨ ref.kind = 2) ∧
-          ∃ b, alookup ref.desc.digest rp.manifests = some b ∧ refersTo rp target n b.refs = true)) := by
+          ∃ b, alookup ref.desc.digest rp.manifests = some b ∧
+            (refersTo rp target n b.refs = true ∨
+             refersTo rp target n (refsAs b ref.desc.mediaType) = true))) := by
   induction refs with
   | nil => simp [refersTo_nil]
   | cons r rest ih =>
@@ -569,7 +573,7 @@ theorem refersTo_succ (rp : Repo) (target : Bytes) (n : Nat) (refs : List RefInf
           · next hk =>
             refine ⟨hk, ?_⟩
             split at h
-            · next b hb => exact ⟨b, hb, h⟩
+            · next b hb => exact ⟨b, hb, by simpa [Bool.or_eq_true] using h⟩
             · cases h
           · cases h
         · exact ⟨ref, List.mem_cons_of_mem _ hm, hp⟩
@@ -577,7 +581,7 @@ theorem refersTo_succ (rp : Repo) (target : Bytes) (n : Nat) (refs : List RefInf
         rcases List.mem_cons.1 hm with rfl | hm
         · rcases hp with h | ⟨hk, b, hb, h⟩
           · exact absurd h hd
-          · left; rw [if_pos hk]; simp only [hb]; exact h
+          · left; rw [if_pos hk]; simp only [hb]; simpa [Bool.or_eq_true] using h
         · exact .inr ⟨ref, hm, hp⟩
 
 /-- `ref ∈ refs` with the target's digest is found with any positive fuel. -/
@@ -587,7 +591,8 @@ theorem refersTo_of_mem {rp : Repo} {target : Bytes} {refs : List RefInfo} {ref 
 
 /-- `Reach rp n refs target`: `target` is the digest of one of `refs`, or of a
 reference reachable from them through at most `n - 1` stored manifests, following
-kind-1 (index entry) and kind-2 (subject) references. Mirrors `refersTo`. -/
+kind-1 (index entry) and kind-2 (subject) references. Mirrors `refersTo`.
+F42: `stepAs` follows a stored manifest under the media type the reference declares. -/
 inductive Reach (rp : Repo) : Nat → List RefInfo → Bytes → Prop
   | here {n : Nat} {refs : List RefInfo} {target : Bytes} {ref : RefInfo} :
       ref ∈ refs → ref.desc.digest = target → Reach rp (n + 1) refs target
@@ -595,10 +600,15 @@ inductive Reach (rp : Repo) : Nat → List RefInfo → Bytes → Prop
       ref ∈ refs → (ref.kind = 1 ∨ ref.kind = 2) →
       alookup ref.desc.digest rp.manifests = some b →
       Reach rp n b.refs target → Reach rp (n + 1) refs target
+  | stepAs {n : Nat} {refs : List RefInfo} {target : Bytes} {ref : RefInfo} {b : Blob} :
+      ref ∈ refs → (ref.kind = 1 ∨ ref.kind = 2) →
+      alookup ref.desc.digest rp.manifests = some b →
+      Reach rp n (refsAs b ref.desc.mediaType) target → Reach rp (n + 1) refs target
 
 /-- Reachable at some depth. -/
 def ReachU (rp : Repo) (refs : List RefInfo) (target : Bytes) : Prop := ∃ n, Reach rp n refs target
 
+-- F42: `Reach` has the constructor `stepAs`
 theorem refersTo_iff_reach (rp : Repo) (target : Bytes) (fuel : Nat) (refs : List RefInfo) :
     refersTo rp target fuel refs = true ↔ Reach rp fuel refs target := by
   induction fuel generalizing refs with
@@ -610,13 +620,15 @@ theorem refersTo_iff_reach (rp : Repo) (target : Bytes) (fuel : Nat) (refs : Lis
   | succ n ih =>
     rw [refersTo_succ]
     constructor
-    · rintro ⟨ref, hm, hd | ⟨hk, b, hb, h⟩⟩
+    · rintro ⟨ref, hm, hd | ⟨hk, b, hb, h | h⟩⟩
       · exact .here hm hd
       · exact .step hm hk hb ((ih _).1 h)
+      · exact .stepAs hm hk hb ((ih _).1 h)
     · intro h
       cases h with
       | here hm hd => exact ⟨_, hm, .inl hd⟩
-      | step hm hk hb h => exact ⟨_, hm, .inr ⟨hk, _, hb, (ih _).2 h⟩⟩
+      | step hm hk hb h => exact ⟨_, hm, .inr ⟨hk, _, hb, .inl ((ih _).2 h)⟩⟩
+      | stepAs hm hk hb h => exact ⟨_, hm, .inr ⟨hk, _, hb, .inr ((ih _).2 h)⟩⟩
 
 theorem Reach.mono_fuel {rp : Repo} {n m : Nat} {refs : List RefInfo} {target : Bytes}
     (h : Reach rp n refs target) (hnm : n ≤ m) : Reach rp m refs target := by
@@ -627,6 +639,9 @@ theorem Reach.mono_fuel {rp : Repo} {n m : Nat} {refs : List RefInfo} {target : 
   | step hm hk hb _ ih =>
     obtain ⟨m', rfl⟩ : ∃ m', m = m' + 1 := ⟨m - 1, by omega⟩
     exact .step hm hk hb (ih (by omega))
+  | stepAs hm hk hb _ ih =>
+    obtain ⟨m', rfl⟩ : ∃ m', m = m' + 1 := ⟨m - 1, by omega⟩
+    exact .stepAs hm hk hb (ih (by omega))
 
 /-- More stored manifests, more reachable. -/
 theorem Reach.mono_repo {rp rp' : Repo} {n : Nat} {refs : List RefInfo} {target : Bytes}
@@ -635,48 +650,204 @@ theorem Reach.mono_repo {rp rp' : Repo} {n : Nat} {refs : List RefInfo} {target 
   induction h with
   | here hm hd => exact .here hm hd
   | step hm hk hb _ ih => exact .step hm hk (hsub _ _ hb) ih
+  | stepAs hm hk hb _ ih => exact .stepAs hm hk (hsub _ _ hb) ih
 
-/-- A path either avoids the manifest `k`, or its part after the last visit to `k` does. -/
+/-- A path either avoids the manifest `k`, or its part after the last visit to `k` does.
+F42: that part starts from `k`'s references under its stored media type or under one
+a reference declared for it (`rs = bk.refs ∨ ∃ mt, rs = refsAs bk mt`). -/
 theorem Reach.erase_or {rp : Repo} {n : Nat} {refs : List RefInfo} {target : Bytes} (k : Bytes)
     (h : Reach rp n refs target) :
     Reach { rp with manifests := aerase k rp.manifests } n refs target ∨
-    ∃ n' bk, alookup k rp.manifests = some bk ∧
-      Reach { rp with manifests := aerase k rp.manifests } n' bk.refs target := by
+    ∃ n' bk rs, alookup k rp.manifests = some bk ∧ (rs = bk.refs ∨ ∃ mt, rs = refsAs bk mt) ∧
+      Reach { rp with manifests := aerase k rp.manifests } n' rs target := by
   induction h with
   | here hm hd => exact .inl (.here hm hd)
   | @step n refs target ref b hm hk hb _ ih =>
     by_cases he : ref.desc.digest = k
     · rcases ih with h | h
-      · exact .inr ⟨_, b, he ▸ hb, h⟩
+      · exact .inr ⟨_, b, _, he ▸ hb, .inl rfl, h⟩
       · exact .inr h
     · rcases ih with h | h
       · exact .inl (.step hm hk (by simpa [alookup_aerase_ne he] using hb) h)
       · exact .inr h
+  | @stepAs n refs target ref b hm hk hb _ ih =>
+    by_cases he : ref.desc.digest = k
+    · rcases ih with h | h
+      · exact .inr ⟨_, b, _, he ▸ hb, .inr ⟨_, rfl⟩, h⟩
+      · exact .inr h
+    · rcases ih with h | h
+      · exact .inl (.stepAs hm hk (by simpa [alookup_aerase_ne he] using hb) h)
+      · exact .inr h
 
-/-- **The fuel is never a restriction.** A shortest path visits every stored
-manifest at most once, so whatever is reachable at all is reachable within depth
-`manifests.length + 1`. No acyclicity assumption is needed. -/
-theorem Reach.bounded {rp : Repo} {n : Nat} {refs : List RefInfo} {target : Bytes}
-    (h : Reach rp n refs target) : Reach rp (rp.manifests.length + 1) refs target := by
-  generalize hlen : rp.manifests.length = m
-  induction m using Nat.strongRecOn generalizing rp n refs target with
+/-! #### F42: the fuel
+
+A path may now pass through the same stored manifest more than once without
+repeating itself: once under the media type it is stored with and once under each
+media type a reference declares for it and ocimem can look inside (image manifest,
+image index). What a path cannot usefully repeat is the *list of references* it
+continues from, and there are at most three of those per stored manifest (`views`). -/
+
+/-- The reference lists a path can continue from after passing through a stored manifest. -/
+def views (rp : Repo) : List (List RefInfo) :=
+  rp.manifests.flatMap fun p =>
+    [p.2.refs, refsAs p.2 ManifestDecode.imageMT, refsAs p.2 ManifestDecode.indexMT]
+
+theorem views_length (rp : Repo) : (views rp).length = 3 * rp.manifests.length := by
+  unfold views
+  generalize rp.manifests = l
+  induction l with
+  | nil => rfl
+  | cons p rest ih => simp only [List.flatMap_cons, List.length_append, List.length_cons, List.length_nil, ih]; omega
+
+theorem mem_of_alookup {β} {k : Bytes} {m : List (Bytes × β)} {v : β} (h : alookup k m = some v) :
+    (k, v) ∈ m := by
+  induction m with
+  | nil => cases h
+  | cons p rest ih =>
+    obtain ⟨k', v'⟩ := p
+    simp only [alookup] at h
+    split at h
+    · next e => cases h; subst e; exact List.mem_cons_self
+    · exact List.mem_cons_of_mem _ (ih h)
+
+/-- Only the two media types ocimem can look inside give references. -/
+theorem refsAs_cases (b : Blob) (mt : Bytes) :
+    refsAs b mt = [] ∨ refsAs b mt = refsAs b ManifestDecode.imageMT ∨
+      refsAs b mt = refsAs b ManifestDecode.indexMT := by
+  by_cases h1 : mt = ManifestDecode.imageMT
+  · subst h1; exact .inr (.inl rfl)
+  · by_cases h2 : mt = ManifestDecode.indexMT
+    · subst h2; exact .inr (.inr rfl)
+    · left
+      unfold refsAs
+      split
+      · rfl
+      · simp [ManifestDecode.decodeRefs, h1, h2]
+
+/-- `refsAs` looks at the stored bytes and the stored media type only. -/
+theorem refsAs_congr {b b' : Blob} (hd : b'.data = b.data) (hmt : b'.mediaType = b.mediaType) (mt : Bytes) :
+    refsAs b' mt = refsAs b mt := by
+  unfold refsAs; rw [hd, hmt]
+
+theorem mem_views {rp : Repo} {k : Bytes} {b : Blob} (hb : alookup k rp.manifests = some b) :
+    b.refs ∈ views rp ∧ refsAs b ManifestDecode.imageMT ∈ views rp ∧ refsAs b ManifestDecode.indexMT ∈ views rp := by
+  have hm := mem_of_alookup hb
+  unfold views
+  refine ⟨List.mem_flatMap.2 ⟨_, hm, ?_⟩, List.mem_flatMap.2 ⟨_, hm, ?_⟩, List.mem_flatMap.2 ⟨_, hm, ?_⟩⟩ <;> simp
+
+/-- `Reach` with the reference lists a path may continue from restricted to `vs`. -/
+inductive ReachV (rp : Repo) (vs : List (List RefInfo)) : Nat → List RefInfo → Bytes → Prop
+  | here {n : Nat} {refs : List RefInfo} {target : Bytes} {ref : RefInfo} :
+      ref ∈ refs → ref.desc.digest = target → ReachV rp vs (n + 1) refs target
+  | step {n : Nat} {refs next : List RefInfo} {target : Bytes} {ref : RefInfo} {b : Blob} :
+      ref ∈ refs → (ref.kind = 1 ∨ ref.kind = 2) →
+      alookup ref.desc.digest rp.manifests = some b →
+      (next = b.refs ∨ next = refsAs b ref.desc.mediaType) → next ∈ vs →
+      ReachV rp vs n next target → ReachV rp vs (n + 1) refs target
+
+theorem Reach.nonempty {rp : Repo} {n : Nat} {refs : List RefInfo} {target : Bytes}
+    (h : Reach rp n refs target) : refs ≠ [] := by
+  cases h <;> (intro e; subst e; contradiction)
+
+theorem Reach.toV {rp : Repo} {n : Nat} {refs : List RefInfo} {target : Bytes}
+    (h : Reach rp n refs target) : ReachV rp (views rp) n refs target := by
+  induction h with
+  | here hm hd => exact .here hm hd
+  | step hm hk hb _ ih => exact .step hm hk hb (.inl rfl) (mem_views hb).1 ih
+  | @stepAs n refs target ref b hm hk hb hrest ih =>
+    refine .step hm hk hb (.inr rfl) ?_ ih
+    rcases refsAs_cases b ref.desc.mediaType with h | h | h
+    · exact absurd h hrest.nonempty
+    · rw [h]; exact (mem_views hb).2.1
+    · rw [h]; exact (mem_views hb).2.2
+
+theorem ReachV.toReach {rp : Repo} {vs : List (List RefInfo)} {n : Nat} {refs : List RefInfo} {target : Bytes}
+    (h : ReachV rp vs n refs target) : Reach rp n refs target := by
+  induction h with
+  | here hm hd => exact .here hm hd
+  | step hm hk hb hnext _ _ ih =>
+    rcases hnext with rfl | rfl
+    · exact .step hm hk hb ih
+    · exact .stepAs hm hk hb ih
+
+theorem ReachV.mono_fuel {rp : Repo} {vs : List (List RefInfo)} {n m : Nat} {refs : List RefInfo} {target : Bytes}
+    (h : ReachV rp vs n refs target) (hnm : n ≤ m) : ReachV rp vs m refs target := by
+  induction h generalizing m with
+  | here hm hd =>
+    obtain ⟨m', rfl⟩ : ∃ m', m = m' + 1 := ⟨m - 1, by omega⟩
+    exact .here hm hd
+  | step hm hk hb hnext hv _ ih =>
+    obtain ⟨m', rfl⟩ : ∃ m', m = m' + 1 := ⟨m - 1, by omega⟩
+    exact .step hm hk hb hnext hv (ih (by omega))
+
+theorem ReachV.mono_vs {rp : Repo} {vs vs' : List (List RefInfo)} {n : Nat} {refs : List RefInfo} {target : Bytes}
+    (hsub : ∀ v, v ∈ vs → v ∈ vs') (h : ReachV rp vs n refs target) : ReachV rp vs' n refs target := by
+  induction h with
+  | here hm hd => exact .here hm hd
+  | step hm hk hb hnext hv _ ih => exact .step hm hk hb hnext (hsub _ hv) ih
+
+/-- A path either never continues from the list `v`, or its part after the last time it does, does not. -/
+theorem ReachV.erase_or {rp : Repo} {vs : List (List RefInfo)} {n : Nat} {refs : List RefInfo} {target : Bytes}
+    (v : List RefInfo) (h : ReachV rp vs n refs target) :
+    ReachV rp (vs.filter (· ≠ v)) n refs target ∨ ∃ n', ReachV rp (vs.filter (· ≠ v)) n' v target := by
+  induction h with
+  | here hm hd => exact .inl (.here hm hd)
+  | @step n refs next target ref b hm hk hb hnext hv _ ih =>
+    by_cases he : next = v
+    · rcases ih with h | h
+      · exact .inr ⟨_, he ▸ h⟩
+      · exact .inr h
+    · rcases ih with h | h
+      · exact .inl (.step hm hk hb hnext (List.mem_filter.2 ⟨hv, by simpa using he⟩) h)
+      · exact .inr h
+
+theorem length_filter_ne_lt {v : List RefInfo} {vs : List (List RefInfo)} (h : v ∈ vs) :
+    (vs.filter (· ≠ v)).length < vs.length := by
+  induction vs with
+  | nil => cases h
+  | cons x rest ih =>
+    by_cases hx : x = v
+    · have : (List.filter (· ≠ v) (x :: rest)) = List.filter (· ≠ v) rest := by simp [List.filter, hx]
+      rw [this]
+      exact Nat.lt_succ_of_le (List.length_filter_le _ _)
+    · have hv : v ∈ rest := by
+        rcases List.mem_cons.1 h with e | e
+        · exact absurd e.symm hx
+        · exact e
+      have : (List.filter (· ≠ v) (x :: rest)) = x :: List.filter (· ≠ v) rest := by simp [List.filter, hx]
+      rw [this]
+      simp only [List.length_cons]
+      exact Nat.succ_lt_succ (ih hv)
+
+theorem ReachV.bounded {rp : Repo} {vs : List (List RefInfo)} {n : Nat} {refs : List RefInfo} {target : Bytes}
+    (h : ReachV rp vs n refs target) : ReachV rp vs (vs.length + 1) refs target := by
+  generalize hlen : vs.length = m
+  induction m using Nat.strongRecOn generalizing vs n refs target with
   | _ m ih =>
     cases h with
     | here hm hd => exact .here hm hd
-    | @step n' _ _ ref b hm hk hb hrest =>
-      let rp' : Repo := { rp with manifests := aerase ref.desc.digest rp.manifests }
-      have hlt : rp'.manifests.length < m := hlen ▸ length_aerase_lt hb
-      have hsome : ∃ n'', Reach rp' n'' b.refs target := by
-        rcases Reach.erase_or ref.desc.digest hrest with h | ⟨n'', bk, hbk, h⟩
+    | @step n' _ next _ ref b hm hk hb hnext hv hrest =>
+      have hlt : (vs.filter (· ≠ next)).length < m := hlen ▸ length_filter_ne_lt hv
+      have hsome : ∃ n'', ReachV rp (vs.filter (· ≠ next)) n'' next target := by
+        rcases ReachV.erase_or next hrest with h | h
         · exact ⟨_, h⟩
-        · rw [hb] at hbk; cases hbk; exact ⟨_, h⟩
+        · exact h
       obtain ⟨n'', h''⟩ := hsome
       have h1 := ih _ hlt h'' rfl
-      have h2 : Reach rp' m b.refs target := h1.mono_fuel (by omega)
-      exact .step hm hk hb (h2.mono_repo fun k b hkb => alookup_of_aerase hkb)
+      have h2 : ReachV rp (vs.filter (· ≠ next)) m next target := h1.mono_fuel (by omega)
+      exact .step hm hk hb hnext hv (h2.mono_vs fun v hv' => (List.mem_filter.1 hv').1)
+
+/-- **The fuel is never a restriction.** A shortest path continues from each of the
+reference lists of `views` at most once, so whatever is reachable at all is reachable
+within depth `3 * manifests.length + 1`. No acyclicity assumption is needed.
+F42: was `manifests.length + 1`, when a stored manifest had one list of references. -/
+theorem Reach.bounded {rp : Repo} {n : Nat} {refs : List RefInfo} {target : Bytes}
+    (h : Reach rp n refs target) : Reach rp (3 * rp.manifests.length + 1) refs target := by
+  have := (Reach.toV h).bounded.toReach
+  rwa [views_length] at this
 
 theorem ReachU.bounded {rp : Repo} {refs : List RefInfo} {target : Bytes} (h : ReachU rp refs target) :
-    Reach rp (rp.manifests.length + 1) refs target := h.elim fun _ h => h.bounded
+    Reach rp (3 * rp.manifests.length + 1) refs target := h.elim fun _ h => h.bounded
 
 /-- `taggedRefersTo` decides unbounded reachability from the tags. -/
 theorem taggedRefersTo_iff (rp : Repo) (target : Bytes) :
@@ -966,20 +1137,29 @@ theorem Reach.mono_refs {rp : Repo} {n : Nat} {refs refs' : List RefInfo} {targe
   cases h with
   | here hm hd => exact .here (hsub _ hm) hd
   | step hm hk hb h => exact .step (hsub _ hm) hk hb h
+  | stepAs hm hk hb h => exact .stepAs (hsub _ hm) hk hb h
 
 /-- Reachability transfers to another repository that keeps, for every manifest
-reachable from `refs`, an entry with the same references. -/
+reachable from `refs`, an entry with the same references.
+F42: and the same bytes and media type, which decide what it refers to under the media
+type a reference declares for it. -/
 theorem Reach.transfer {rp rp' : Repo} {n : Nat} {refs : List RefInfo} {target : Bytes}
     (hsub : ∀ k b, ReachU rp refs k → alookup k rp.manifests = some b →
-      ∃ b', alookup k rp'.manifests = some b' ∧ b'.refs = b.refs)
+      ∃ b', alookup k rp'.manifests = some b' ∧ b'.data = b.data ∧ b'.mediaType = b.mediaType ∧
+        b'.refs = b.refs)
     (h : Reach rp n refs target) : Reach rp' n refs target := by
   induction h with
   | here hm hd => exact .here hm hd
   | @step n refs target ref b hm hk hb _ ih =>
-    obtain ⟨b', hb', hrefs⟩ := hsub _ b ⟨1, .here hm rfl⟩ hb
+    obtain ⟨b', hb', _, _, hrefs⟩ := hsub _ b ⟨1, .here hm rfl⟩ hb
     refine .step hm hk hb' ?_
     rw [hrefs]
     exact ih fun k b0 ⟨m, hr⟩ hk0 => hsub k b0 ⟨m + 1, .step hm hk hb hr⟩ hk0
+  | @stepAs n refs target ref b hm hk hb _ ih =>
+    obtain ⟨b', hb', hd, hmt, _⟩ := hsub _ b ⟨1, .here hm rfl⟩ hb
+    refine .stepAs hm hk hb' ?_
+    rw [refsAs_congr hd hmt]
+    exact ih fun k b0 ⟨m, hr⟩ hk0 => hsub k b0 ⟨m + 1, .stepAs hm hk hb hr⟩ hk0
 
 section
 variable (H : Bytes → Bytes) (decOf : Bytes → Bytes → Decoded) (D : Bytes → Prop)
@@ -1095,9 +1275,7 @@ theorem RepoStep.reach_retained {op : Op} {s : State} {rp rp' : Repo}
   · obtain ⟨n, hn⟩ := hreach
     refine ⟨n, Reach.mono_refs (RepoStep.tagRefs_mono H him h) (Reach.transfer ?_ hn)⟩
     intro k b hrk hk
-    obtain ⟨b', hb', _, _, hrefs⟩ :=
-      RepoStep.reachable_manifest_kept H decOf D him hinv hok hop hinj h hrk hk
-    exact ⟨b', hb', hrefs⟩
+    exact RepoStep.reachable_manifest_kept H decOf D him hinv hok hop hinj h hrk hk
   · intro b hb
     cases h with
     | refl => exact ⟨b, hb⟩
